@@ -30,12 +30,42 @@ def main(argv):
         print("unknown property %s" % pid)
         return 2
     try:
+        if replay:
+            return do_replay(mod, pid, tier, replay)
         return mod.run(tier, replay)
     except mir.FactsError as e:
         return common.internal_error(pid, str(e))
     except Exception:
         traceback.print_exc()
         return common.internal_error(pid, "internal error in the checker (see traceback)")
+
+
+def do_replay(mod, pid, tier, path):
+    """re-derive the obligation recorded in a replay file on the current tree and explain it"""
+    import io, json, contextlib
+    try:
+        rec = json.load(open(path))
+    except Exception as e:
+        print("cannot read replay file %s: %s" % (path, e))
+        return 2
+    key = rec.get("key")
+    print("replaying %s (recorded: %s)" % (key, rec.get("msg")))
+    buf = io.StringIO()
+    with contextlib.redirect_stdout(buf):
+        rc = mod.run(rec.get("tier", tier), None)
+    out = buf.getvalue()
+    still = [l for l in out.splitlines() if l.strip().startswith("violated: " + str(key))]
+    ev = json.load(open(os.path.join(mir.VERIF, "evidence", "%s.json" % pid)))
+    for o in ev["coverage"].get("samples", []):
+        if not o.get("ok") and (rec.get("rule") == o.get("rule")) and rec.get("msg") == o.get("what"):
+            print("  where : %s" % o.get("where"))
+            print("  detail: %s" % json.dumps(o.get("detail"))[:1500])
+    if still:
+        print("  status: STILL VIOLATED on the current tree")
+        print("VIOLATION property=%s replay=%s" % (pid, path))
+        return 1
+    print("  status: this obligation is discharged on the current tree (overall check exit code %d)" % rc)
+    return 0
 
 
 if __name__ == "__main__":
